@@ -253,6 +253,7 @@ PROPS["C19"] = {
     "runs": [
         R("udp-filters", ".", "root", ["ZzC19ServerUDPFilter", "ZzC19ClientUDPFilter"], params={"GOSTUB": 1}, extras=_EXTRAS),
         R("pinned-connection", ".", "root", ["ZzC02StateGuard"], params={"GOSTUB": 1}, extras=_EXTRAS, flags={"concoff": True}),
+        R("server-loop", ".", "root", ["ZzC19ServerLoop"], params={"GOSTUB": 1, "CHANMODEL": 1}, extras=_EXTRAS),
     ],
 }
 PROPS["C20"] = {
@@ -343,7 +344,9 @@ PROPS["C02"] = {
     "level_text": "Sequential kernels on the real code: (1) ServerSession.handleRequestInner state guard: for every session state and every state-changing method the request is refused with ErrServerInvalidState (status >= 400, state untouched, application not called) exactly when (method, state) is outside the RFC 2326 table written in the harness; a request refused by validation or by the application leaves the state unchanged; a request from another connection than the pinned one is refused in every state. (2) ServerConn.handleRequestOuter: exactly one response is written per request for all eleven methods, with the request's CSeq echoed (symbolic value), 400 without CSeq. (3) UDP liveness: every UDP entry point of a session media (RTP/RTCP while recording, RTP/RTCP while playing) refreshes the session's last-packet time for arbitrary RTP bytes / any receiver report, so a peer that keeps sending media or reports is not expired by the UDP timeout check.",
     "level_note": "Outside: request sequences (only one step from each constructed state), successful SETUP/PLAY/RECORD transitions through the stream/UDP plumbing, routing by Session header in Server.run (channels), the timers themselves, session lifetime decisions taken in the session's channel-driven run loop (e.g. closing when the last connection goes away), keep-alive by RTSP requests, exactly-once session close. Goroutines/timers are not executed (GOSTUB).",
     "runs": [R("state-guard", ".", "root", ["ZzC02StateGuard", "ZzC02HandlerRefuses", "ZzC02OneResponse"], params={"GOSTUB": 1}, extras=_EXTRAS, flags={"concoff": True}),
-             R("udp-keepalive", ".", "root", ["ZzC02UDPKeepAlive"], params={"GOSTUB": 1}, extras=_EXTRAS)],
+             R("udp-keepalive", ".", "root", ["ZzC02UDPKeepAlive"], params={"GOSTUB": 1}, extras=_EXTRAS),
+             R("session-loop", ".", "root", ["ZzC02SessionLoop"], params={"GOSTUB": 1, "CHANMODEL": 1}, extras=_EXTRAS),
+             R("server-loop", ".", "root", ["ZzC19ServerLoop"], params={"GOSTUB": 1, "CHANMODEL": 1}, extras=_EXTRAS)],
 }
 
 # ---------------------------------------------------------------- C14
